@@ -3,6 +3,7 @@ package kmipclient
 import (
 	"context"
 	"crypto/tls"
+	"errors"
 	"fmt"
 	"log/slog"
 	"net"
@@ -27,6 +28,9 @@ func DialCluster(addrs []string, options ...Option) (*Client, error) {
 }
 
 func DialClusterContext(ctx context.Context, addrs []string, options ...Option) (*Client, error) {
+	if len(addrs) == 0 {
+		return nil, errors.New("at least one server address must be given")
+	}
 	opts := opts{}
 	for _, o := range options {
 		if err := o(&opts); err != nil {
@@ -51,8 +55,9 @@ func DialClusterContext(ctx context.Context, addrs []string, options ...Option) 
 		})
 	}
 
-	if opts.retryTimeout == nil {
-		*opts.retryTimeout = 5 * time.Second
+	retryTimeout := 5 * time.Second
+	if opts.retryTimeout != nil {
+		retryTimeout = *opts.retryTimeout
 	}
 
 	dialer := opts.dialer
@@ -62,7 +67,7 @@ func DialClusterContext(ctx context.Context, addrs []string, options ...Option) 
 				Config: tlsCfg,
 			}
 			for _, s := range servers {
-				if !time.Now().After(s.lastError.Add(*opts.retryTimeout)) {
+				if !time.Now().After(s.lastError.Add(retryTimeout)) {
 					slog.Info("Skipping server because of recent last error", "url", s.url, "last error", s.lastError)
 					continue
 				}
@@ -81,7 +86,7 @@ func DialClusterContext(ctx context.Context, addrs []string, options ...Option) 
 			conn, err := tlsDialer.DialContext(ctx, "tcp", servers[0].url)
 			if err == nil {
 				// reset lastError since we had a success
-				servers[0].lastError = time.Date(0, 0, 0, 0, 0, 0, 0, nil)
+				servers[0].lastError = time.Time{}
 				return conn, nil
 			}
 			servers[0].lastError = time.Now()
